@@ -240,3 +240,120 @@ Definition wslice (lm sl : N) (recs : list rec) : slice := mkslice lm sl (slice_
    query case goes through [query_m], so the selection of the slice by landmark is modelled for
    single-slice containers too *)
 Definition single_file (f : list container) : list mcont := map of_container f.
+
+(* ---- the records as the QUERY sees them ---------------------------------------------------- *)
+
+(* Query::read_next_container converts every decoded CRAM record with
+   RecordBuf::try_from_alignment_record; `intersects` then tests the RecordBuf's reference id and
+   [alignment_start, alignment_end] -- NOT the flags.  The CIGAR of a record flagged unmapped is
+   empty (record.rs cigar(): Cigar::new(features, is_unmapped, read_length)), and
+   RecordBuf::alignment_end of an empty CIGAR is the start itself: a PLACED read flagged unmapped
+   (e.g. the unmapped mate placed at its mate's position) covers its POS only, whereas the CRAM
+   record -- which fs::index and the writer's slice context use -- covers
+   start .. start + read length - 1 ([re]).  A scan of the file returns the same RecordBufs. *)
+Definition as_buf (x : rec) : rec :=
+  mkrec (rname x) (rid x) (rs x) (if runm x then rs x else re x) (runm x).
+
+Definition buf_slice (s : slice) : slice := wslice (s_landmark s) (s_len s) (map as_buf (s_recs s)).
+
+Definition buf_cont (c : mcont) : mcont := mkmcont (m_off c) (m_hlen c) (m_len c) (map buf_slice (m_slices c)).
+
+Definition buf_file (f : list mcont) : list mcont := map buf_cont f.
+
+(* Reader::query on a file whose index is [es]: the entries select containers and slices, the
+   records are the converted ones *)
+Definition query_region_buf (nrefs : N) (es : list entry) (f : list mcont)
+           (r : N) (lo hi : option N) : result (list rec) :=
+  query_region_m nrefs es (buf_file f) r lo hi.
+
+(* what of an index entry the query looks at *)
+Definition ekey (e : entry) : option N * N * N := (e_rid e, e_off e, e_landmark e).
+
+(* ---- placed records WITHOUT bases: the span of an index entry ------------------------------- *)
+
+(* A record with a reference id and a position but read length 0 (an unmapped mate placed at its
+   mate's position with SEQ `*`) has CRAM alignment end = start - 1: [re x] = rs x - 1, where 0
+   stands for "no position" (Position::new(0) = None; None orders before every position, as 0
+   does).  Two pieces of code compute an end from it:
+   * the WRITER (io/writer/record.rs alignment_end, after the repair b02b368): start +
+     max(span, 1) - 1, i.e. the record occupies at least its start -> [wend]; the slice header
+     context (and through it the index entry of a single-reference slice) is built from it;
+   * fs/index.rs push_index_records_for_multi_reference_slice: record.rs alignment_end =
+     start + span - 1 with no such floor -> [re x] itself; per reference
+     `usize::from(end) - usize::from(start) + 1` then underflows (a panic in a build with overflow
+     checks) when the largest end is below the smallest start, and the `todo!()` is reached when
+     no end is a position (a lone such record at POS 1).
+   [index_span_repaired] says which of the two the record scan of fs/index.rs follows: false = the
+   code as it is, true = after the proposed repair (/tmp/C19/fixes/04-...: the scan takes
+   max(end, start), the writer's convention).  Flipping it is the only change needed once the
+   repair is applied. *)
+Definition index_span_repaired : bool := true.
+
+Definition wend (x : rec) : N := N.max (re x) (rs x).
+
+(* the record as the writer sees it *)
+Definition wrec (x : rec) : rec := mkrec (rname x) (rid x) (rs x) (wend x) (runm x).
+
+(* the record as the record scan of fs/index.rs sees it *)
+Definition irec (rep : bool) (x : rec) : rec := if rep then wrec x else x.
+
+(* a slice as the writer stores it: the header context comes from the writer's ends *)
+Definition xslice (lm sl : N) (recs : list rec) : slice := mkslice lm sl (slice_ctx (map wrec recs)) recs.
+
+Definition xcont (c : mcont) : mcont :=
+  mkmcont (m_off c) (m_hlen c) (m_len c) (map (fun s => xslice (s_landmark s) (s_len s) (s_recs s)) (m_slices c)).
+
+Definition xfile (f : list mcont) : list mcont := map xcont f.
+
+(* some reference of the slice gets largest end < smallest start: the subtraction underflows
+   (or, with no end at all, the todo!() is reached) *)
+Definition underflows (recs : list rec) : bool :=
+  existsb (fun r => let lh := range_of r recs in snd lh <? fst lh) (mapped_keys recs).
+
+Definition slice_panics (rep : bool) (s : slice) : bool :=
+  match s_ctx s with
+  | Multi => negb rep && underflows (s_recs s)
+  | _ => false
+  end.
+
+(* index(): per slice, in order: the range test of container.slices(), then push_index_records *)
+Fixpoint slices_entries_x (rep : bool) (pos len : N) (ss : list slice) : result (list entry) :=
+  match ss with
+  | [] => Ok []
+  | s :: t =>
+      let nxt := match t with [] => len | s' :: _ => s_landmark s' end in
+      if (nxt <? s_landmark s) || (len <? nxt) then ErrInvalidData
+      else if slice_panics rep s then Panic
+      else
+        match slices_entries_x rep pos len t with
+        | Ok es => Ok (slice_entries pos (s_landmark s) (nxt - s_landmark s) (s_ctx s) (map (irec rep) (s_recs s)) ++ es)
+        | e => e
+        end
+  end.
+
+Fixpoint index_x (rep : bool) (pos : N) (f : list mcont) : result (list entry) :=
+  match f with
+  | [] => Ok []
+  | c :: t =>
+      match slices_entries_x rep pos (m_len c) (m_slices c) with
+      | Ok es =>
+          match index_x rep (pos + m_hlen c + m_len c) t with
+          | Ok es' => Ok (es ++ es')
+          | e => e
+          end
+      | e => e
+      end
+  end.
+
+(* cram::fs::index on a file written by the writer (records as decoded, contexts as stored) *)
+Definition index_real (pos : N) (f : list mcont) : result (list entry) :=
+  index_x index_span_repaired pos (xfile f).
+
+(* the input class of the finding: a multi-reference slice holds a placed record without bases *)
+Definition no_bases (x : rec) : bool := match rid x with Some _ => re x <? rs x | None => false end.
+
+Definition span_class_slice (s : slice) : bool :=
+  match s_ctx s with Multi => existsb no_bases (s_recs s) | _ => false end.
+
+Definition span_class (f : list mcont) : bool :=
+  existsb (fun c => existsb span_class_slice (m_slices c)) f.
